@@ -41,46 +41,69 @@ def simultaneousClose : List Op :=
 example : stateOf .A (Sys.run {} simultaneousClose) = some .TimeWait ∧
     stateOf .B (Sys.run {} simultaneousClose) = some .TimeWait := by decide
 
-/-! ## F-C03-1: TIME-WAIT answers any ACK-bearing segment; the exchange never stops -/
+/-! ## F-C03-1 (fixed): TIME-WAIT answered any ACK-bearing segment; the exchange never stopped -/
 
-/-- one duplicate of B's last ACK (history 6) reaches A in TIME-WAIT: A answers with
-    `ACK(SEG.SEQ+1) = 5003`, an acknowledgment of something B never sent -/
+/-- one duplicate of B's last ACK (history 6) reaches A in TIME-WAIT -/
 def stormStart : List Op := simultaneousClose ++ [.deliver .A 6, .emit .A]
 
-/-- one further round trip: B (TIME-WAIT) answers A's ACK, A answers B's -/
-def stormRound (i : Nat) : List Op := [.deliver .B i, .emit .B, .deliver .A (i + 1), .emit .A]
-
-/-- **F-C03-1.**  Both sides are in TIME-WAIT and the network is empty.  One duplicate ACK
-    starts an exchange that reproduces itself: after every round trip both TCBs are exactly what
-    they were a round trip earlier (2·MSL timers restarted, an ACK of unsent data in flight), so
-    under fair delivery the exchange never stops and neither side is ever released. -/
-theorem c03_timewait_ack_storm_counterexample :
-    (lastEmit (Sys.run {} stormStart)).map (·.map fun s => (s.hdr.ctl.toNat, s.hdr.ack.toNat)) = some [(16, 5003)] ∧
-    tcbOf .A (Sys.run {} (stormStart ++ stormRound 7)) = tcbOf .A (Sys.run {} stormStart) ∧
-    tcbOf .A (Sys.run {} (stormStart ++ stormRound 7 ++ stormRound 9)) = tcbOf .A (Sys.run {} stormStart) ∧
-    tcbOf .B (Sys.run {} (stormStart ++ stormRound 7 ++ stormRound 9)) = tcbOf .B (Sys.run {} (stormStart ++ stormRound 7)) ∧
-    lastEmit (Sys.run {} (stormStart ++ stormRound 7 ++ stormRound 9)) = lastEmit (Sys.run {} stormStart) ∧
-    (tcbOf .A (Sys.run {} (stormStart ++ stormRound 7 ++ stormRound 9))).map (·.timeouts.timeWait) = some (some TIME_WAIT) := by
+/-- F-C03-1 (fixed, repo 03eeee69).  Both sides are in TIME-WAIT and the network is empty; a
+    duplicate ACK arrives.  Before the repair A answered `ACK(SEG.SEQ+1) = 5003` — an
+    acknowledgment of something B never sent —, B (TIME-WAIT) answered that, and after every
+    round trip both TCBs were exactly what they had been a round trip earlier, 2·MSL timers
+    restarted (this theorem was `c03_timewait_ack_storm_counterexample`, proved by `decide` on the
+    model of the unrepaired code in commit 6ee4231).  Now the duplicate changes nothing and
+    nothing is sent. -/
+theorem c03_regression_timewait_quiet :
+    lastEmit (Sys.run {} stormStart) = some [] ∧
+    tcbOf .A (Sys.run {} (simultaneousClose ++ [.deliver .A 6])) = tcbOf .A (Sys.run {} simultaneousClose) := by
   decide
 
-/-! ## F-C03-2: `close()` numbers the FIN before text that is still unsegmentized -/
+/-! ## F-C03-2 (fixed): `close()` numbered the FIN before text that was still unsegmentized -/
 
-/-- A writes three bytes and closes before `segments()` ran: the FIN takes `SND.NXT = 1001`,
-    the three bytes stay in `outgoing.text` of a FIN-WAIT-1 endpoint (which never segmentizes),
-    the peer sees the end of the stream having received none of them -/
+/-- A writes three bytes and closes before `segments()` ran -/
 def strandOps : List Op := handshake ++ [.write .A [1, 2, 3], .close .A, .emit .A]
 
-/-- **F-C03-2.** -/
-theorem c03_close_strands_text_counterexample :
-    -- what A sends: the FIN (seq 1001), no text
-    (lastEmit (Sys.run {} strandOps)).map (·.map fun s => (s.hdr.ctl.toNat, s.hdr.seq.toNat, s.text)) = some [(17, 1001, [])] ∧
-    -- the text is still queued, in a state whose `segments()` never sends it
-    (tcbOf .A (Sys.run {} strandOps)).map (fun t => (t.state, t.outgoing.text)) = some (.FinWait1, [1, 2, 3]) ∧
-    -- the peer shows FIN received (CLOSE-WAIT) and holds none of the three bytes
-    (tcbOf .B (Sys.run {} (strandOps ++ [.deliver .B 3]))).map (fun t => (t.state, t.incoming.text)) = some (.CloseWait, []) ∧
-    -- and the connection closes "cleanly": B closes, A acknowledges, B is released by the final ACK
-    stateOf .B (Sys.run {} (strandOps ++ [.deliver .B 3, .close .B, .emit .B, .deliver .A 4, .deliver .A 5,
-      .emit .A, .deliver .B 6])) = none := by
+/-- F-C03-2 (fixed, repo e2119c13).  Before the repair the FIN took `SND.NXT = 1001`, the three
+    bytes stayed in `outgoing.text` of a FIN-WAIT-1 endpoint for ever, the peer went to CLOSE-WAIT
+    holding none of them and the connection closed "cleanly"
+    (`c03_close_strands_text_counterexample` in commit 6ee4231).  Now FIN-WAIT-1 is entered at once,
+    the text is segmentized first and the FIN follows it with sequence number 1004; the peer
+    holds the three bytes when it shows FIN received. -/
+theorem c03_regression_close_after_text :
+    (lastEmit (Sys.run {} strandOps)).map (·.map fun s => (s.hdr.ctl.toNat, s.hdr.seq.toNat, s.text))
+      = some [(16, 1001, [1, 2, 3]), (17, 1004, [])] ∧
+    (tcbOf .A (Sys.run {} strandOps)).map (fun t => (t.state, t.outgoing.text)) = some (.FinWait1, []) ∧
+    (tcbOf .B (Sys.run {} (strandOps ++ [.deliver .B 3, .deliver .B 4]))).map (fun t => (t.state, t.incoming.text))
+      = some (.CloseWait, [1, 2, 3]) := by
+  decide
+
+/-! ## F-C03-3: LAST-ACK does no ACK processing: the queue is never cleaned, the window never reopens -/
+
+/-- B's send window is 2 (the third segment of the handshake advertises it); B writes five
+    bytes, two go out; A closes, B goes to CLOSE-WAIT and closes: LAST-ACK with three bytes still
+    to be segmentized.  A acknowledges the two bytes (history 5) advertising 65535. -/
+def lastAckOps : List Op :=
+  [.open .A 1000 1500, .listen .B 5000 1500, .emit .A, .deliver .B 0, .emit .B, .deliver .A 1, .emit .A,
+   .inject .B (forge .B 16 1001 5001 2 []), .write .B [1, 2, 3, 4, 5], .emit .B, .close .A, .emit .A,
+   .deliver .B 4, .close .B, .deliver .A 3, .emit .A, .emit .B, .deliver .B 5, .emit .B]
+
+/-- **F-C03-3.**  In LAST-ACK an acknowledgment only overwrites `SND.UNA`: acknowledged segments
+    stay on the retransmission queue and the send window is never updated.  Everything B sent
+    is acknowledged (`SND.UNA = SND.NXT`), the peer advertises 65535, yet `segments()` sends
+    nothing (it still counts the acknowledged two bytes against the old window of 2); after a
+    retransmission timeout it retransmits the acknowledged segment and still nothing new; a
+    further ACK from the peer leaves the TCB exactly as it was.  The three bytes and the FIN are
+    never sent: B stays in LAST-ACK, A in FIN-WAIT-2, for ever. -/
+theorem c03_lastack_stall_counterexample :
+    (tcbOf .B (Sys.run {} lastAckOps)).map (fun t => (t.state, t.outgoing.text)) = some (.LastAck, [3, 4, 5]) ∧
+    (tcbOf .B (Sys.run {} lastAckOps)).map (fun t => (t.snd.una.toNat, t.snd.nxt.toNat, t.snd.wnd.toNat))
+      = some (5003, 5003, 2) ∧
+    (tcbOf .B (Sys.run {} lastAckOps)).map (fun t => t.outgoing.retransmit.map (·.segment.text)) = some [[1, 2]] ∧
+    lastEmit (Sys.run {} lastAckOps) = some [] ∧
+    (lastEmit (Sys.run {} (lastAckOps ++ [.tick .B 150, .emit .B]))).map (·.map (·.text)) = some [[1, 2]] ∧
+    tcbOf .B (Sys.run {} (lastAckOps ++ [.tick .B 150, .emit .B, .deliver .A 6, .deliver .A 7, .emit .A, .deliver .B 8, .emit .B]))
+      = tcbOf .B (Sys.run {} (lastAckOps ++ [.tick .B 150, .emit .B])) ∧
+    stateOf .A (Sys.run {} (lastAckOps ++ [.tick .B 150, .emit .B, .deliver .A 6, .deliver .A 7])) = some .FinWait2 := by
   decide
 
 end C03
